@@ -33,11 +33,12 @@ def items(ctx):
             kind = rng.choice(["hier", "hier", "hier", "tree"])
             fits.append({"kind": kind, "source": "matrix", "matrix": rng.choice([0, 0, 1]),
                          "maxdist": rng.choice([-1, -1, 1, 2, 3]), "swap": rng.random() < 0.3,
-                         "order": rng.choice([None, None, "last"]), "reuse": rng.random() < 0.6})
+                         "order": rng.choice([None, None, "last"]), "reuse": rng.random() < 0.6,
+                         "exact": rng.random() < 0.4})
         finite = all(m[r][c] >= 0 for r in range(n) for c in range(r + 1, n))
         if finite:
             fits.append({"kind": "linkage", "source": "matrix", "matrix": 0, "maxdist": -1,
-                         "method": rng.choice(["complete", "single", "average"])})
+                         "method": rng.choice(["complete", "single", "average"]), "only_triu": rng.random() < 0.4})
         out.append({"n": n, "matrices": [m, m2], "series": [], "fits": fits})
     # real series through the library's own distance-matrix functions (integer distances: euclidean inner distance)
     for _ in range(60 if q else 1200):
@@ -53,7 +54,7 @@ def items(ctx):
                          "source": rng.choice(["dtw", "dtw_fast"]), "matrix": rng.choice([0, 1]),
                          "maxdist": rng.choice([-1, -1, 2, 5]), "swap": False, "order": None,
                          "reuse": rng.random() < 0.5, "window": rng.choice([0, 0, 2]),
-                         "method": "complete"})
+                         "method": "complete", "exact": rng.random() < 0.4, "only_triu": rng.random() < 0.4})
         out.append({"n": n, "matrices": [], "series": sers, "fits": fits})
     for k, it in enumerate(out):
         it["id"] = "c15-%d" % k
